@@ -7,7 +7,7 @@ import json
 import os
 import sys
 
-from mc import world, procseam, cli
+from mc import world, procseam, cli, kf
 from mc.result import Result
 
 PROPERTY = 'C10'
@@ -57,7 +57,7 @@ LAST_ITEMS = [
 DEFS = ["def string S = 's v'", "def list L = l1 'l 2'", 'def list E = ', 'def path P = -rel-act pf']
 
 FORMS = ('percent', 'path', 'python', 'sym', 'sym2')
-STDINS = ('none', 'str', 'here', 'file', 'prog', 'setup', 'both', 'prog-ign', 'prog-err-ign', 'prog-err')
+STDINS = ('none', 'str', 'here', 'file', 'prog', 'setup', 'both', 'prog-ign', 'prog-err-ign', 'prog-err', 'here-odd')
 PLACES = ('act', 'setup-run', 'before-assert-run', 'assert-run', 'cleanup-run', 'setup-percent', 'stdout-from', 'run-transformer',
           'run-text-matcher', 'run-file-matcher', 'exit-code-from')
 
@@ -143,6 +143,9 @@ def stdin_src(kind):
         return "-stdin 'prog stdin'", None, 'prog stdin', ''
     if kind == 'here':
         return '-stdin <<EOF\nhere 1\n@[S]@\nEOF', None, 'here 1\ns v\n', ''
+    if kind == 'here-odd':
+        # body lines that look like something else: empty, blank, comment-like
+        return '-stdin <<EOF\nline1\n\n# hash line\n   \nline2\nEOF', None, 'line1\n\n# hash line\n   \nline2\n', ''
     if kind == 'file':
         return '-stdin -contents-of -rel-home data.txt', None, 'data file\n', ''
     if kind == 'prog':
@@ -313,6 +316,7 @@ def _virtual(res, case, w, seam):
         errs.append('outcome %s (rc %s), expected %s / %s' % (o.ident, o.rc, outcome, ' / '.join(cli.stderr_lines(o.err)[:8])))
     calls = [c for c in seam.calls if c['name'] not in ('atc', 'gen', 'genfail', 'generr')]
     home = str(w.home)
+    stdin_pair = None
     if not calls:
         errs.append('the program was not started')
     else:
@@ -328,6 +332,7 @@ def _virtual(res, case, w, seam):
         got_stdin = c['stdin'] or ''
         if got_stdin != exp['stdin']:
             errs.append('stdin %r, denoted %r' % (got_stdin, exp['stdin']))
+            stdin_pair = (got_stdin, exp['stdin'])
         if not sds_act.endswith('/act'):
             errs.append('started in %s, expected the act directory' % sds_act)
     res.outcomes[(place, o.ident)] += 1
@@ -336,6 +341,10 @@ def _virtual(res, case, w, seam):
     if not res.samples and form == 'sym2' and sk != 'none':
         res.samples.append({'case': case, 'file': text, 'started': [{'args': c['args'], 'stdin': c['stdin']} for c in calls], 'outcome': o.ident})
     if errs:
+        hit = kf.classify_c10(place, sk, errs, stdin_pair, o.ident, outcome)
+        if hit:
+            res.kf[hit] += 1
+            return res
         res.violation(case, errs, {'file': text, 'calls': [{'args': c['args'], 'stdin': c['stdin'], 'shell': c['shell']} for c in seam.calls]})
     return res
 
